@@ -618,6 +618,11 @@ func AppendBinaryValue(data []byte, fieldType uint8, value interface{}) ([]byte,
 				t = append(t, 0)
 			} else {
 				ts, err := time.Parse("2006-01-02 15:04:05", v)
+				if err == nil && ts.Nanosecond()%1000 != 0 {
+					// finer than a microsecond: not a value of the type, and the
+					// encoding below would cut it (stringToMysqlTime refuses it too)
+					err = fmt.Errorf("invalid fraction %s", v)
+				}
 				if err == nil {
 					t = append(t, 11)
 					t = AppendUint16(t, uint16(ts.Year()))
